@@ -103,6 +103,10 @@ pub struct Session {
     /// Per-tick grouping of mutate messages for the C10 oracle.
     pub tick_msgs: BTreeMap<u32, Vec<u64>>,
     pub idle_replication_msgs: u32,
+    /// Known finding F20: an update message with tick 0 was sent in this session.
+    pub tick0: bool,
+    /// Entities whose mutations may have been applied (and dropped) before the tick-0 update message.
+    pub f20_ents: BTreeSet<u64>,
 }
 
 impl Session {
@@ -141,6 +145,8 @@ impl Session {
             wrong_hash: false,
             tick_msgs: BTreeMap::new(),
             idle_replication_msgs: 0,
+            tick0: false,
+            f20_ents: BTreeSet::new(),
         }
     }
     pub fn up(&self) -> bool {
@@ -298,6 +304,8 @@ pub struct Sim {
     /// P written and not yet snapshotted, per entity (for the F4 taint).
     pub trace_log: Vec<String>,
     pub verbose: bool,
+    /// Directed scenarios of known findings run with the cause predicates switched off.
+    pub no_taint: bool,
 }
 
 pub fn silent_panics() {
@@ -371,6 +379,7 @@ impl Sim {
             inject_len: 0,
             trace_log: vec![],
             verbose: false,
+            no_taint: false,
         }
     }
 
@@ -998,6 +1007,11 @@ impl Sim {
             if let Some(m) = sess.muts.get_mut(&msg.id) {
                 m.delivered = true;
                 sess.delivered_ticks.insert(m.tick);
+                if sess.tick0 && sess.upd_delivered == 0 && m.update_tick == 0 {
+                    for (e, _) in &m.ents {
+                        sess.f20_ents.insert(*e);
+                    }
+                }
             }
         } else {
             for v in sess.sev_sent.values_mut() {
@@ -1444,8 +1458,13 @@ impl Sim {
 
     /// Runs a whole trace; returns the violations.
     pub fn run(trace: &Trace, verbose: bool) -> Sim {
+        Self::run_opts(trace, verbose, false)
+    }
+
+    pub fn run_opts(trace: &Trace, verbose: bool, no_taint: bool) -> Sim {
         let mut sim = Sim::new(&trace.profile);
         sim.verbose = verbose;
+        sim.no_taint = no_taint;
         for (i, step) in trace.steps.iter().enumerate() {
             if sim.dead() {
                 break;
